@@ -100,7 +100,12 @@ extern "C" void h_file_fixedpoint(int ver, int feat) {
 extern "C" void h_file_repeat(int ver, int feat, int raw) {
 	NifFile built;
 	fm_build(built, ver, feat);
+	// the very first save of an API-built model (values not yet rounded by any earlier save) must not change
+	// what the queries return
+	// (geometry digest: an Oblivion model legitimately gains its tangent-space extra data block on the first save)
+	auto b0 = digest(built, true);
 	FmRange s0 = fm_save(built, true);
+	sym_assert(digest(built, true) == b0, "C02-built-first: the first save of an API-built model changed what its queries return");
 	NifFile nif;
 	int rc = fm_load(nif, s0);
 	sym_assert(rc == 0, "C02-setup: model does not load");
@@ -122,7 +127,7 @@ extern "C" void h_file_repeat(int ver, int feat, int raw) {
 	// saving the freshly built (never loaded) model as well: queries before the first save == after it
 	auto p0 = digest(built, raw == 0);
 	FmRange x = fm_save(built, raw != 0);
-	sym_assert(digest(built, raw == 0) == p0, "C02-built-first: the first save of an API-built model changed what its queries return");
+	sym_assert(digest(built, raw == 0) == p0, "C02-built-second: a further save of an API-built model changed what its queries return");
 	auto p1 = digest(built);
 	FmRange y = fm_save(built, raw != 0);
 	auto p2 = digest(built);
